@@ -4729,6 +4729,15 @@ class NameCheckVisitor(node_visitor.ReplacingNodeVisitor):
     def visit_Assign(self, node: ast.Assign) -> None:
         is_yield = isinstance(node.value, ast.Yield)
         value = self.visit(node.value)
+        target_names = {
+            target.id for target in node.targets if isinstance(target, ast.Name)
+        }
+        if target_names and any(
+            isinstance(child, ast.Name) and child.id in target_names
+            for child in ast.walk(node.value)
+        ):
+            # i = i + 1
+            value = self._widen_if_carried_around_loop(value)
 
         with (
             qcore.override(self, "being_assigned", value),
@@ -4809,6 +4818,28 @@ class NameCheckVisitor(node_visitor.ReplacingNodeVisitor):
         ):
             self.visit(node.target)
 
+    def _widen_if_carried_around_loop(self, value: Value) -> Value:
+        """The value of an update such as ``i += 1`` or ``i = i + 1`` inside a loop.
+
+        The body of a loop is only visited a few times, so the literals computed
+        for those iterations are not all the values the variable takes.
+
+        """
+        if not getattr(self.scopes.current_scope(), "current_loop_scopes", None):
+            return value
+        return unite_values(
+            *[
+                (
+                    TypedValue(type(subval.val))
+                    if isinstance(subval, KnownValue)
+                    and isinstance(subval.val, (int, float, complex, str, bytes))
+                    and not isinstance(subval.val, bool)
+                    else subval
+                )
+                for subval in flatten_values(value)
+            ]
+        )
+
     def visit_AugAssign(self, node: ast.AugAssign) -> None:
         is_yield = isinstance(node.value, ast.Yield)
         rhs = self.composite_from_node(node.value)
@@ -4821,24 +4852,8 @@ class NameCheckVisitor(node_visitor.ReplacingNodeVisitor):
         value = self._visit_binop_internal(
             node.target, lhs, node.op, node.value, rhs, node, is_inplace=True
         )
-        if isinstance(node.target, ast.Name) and getattr(
-            self.scopes.current_scope(), "current_loop_scopes", None
-        ):
-            # An update carried around a loop: the body is only visited a few
-            # times, so the literals computed for those iterations are not all
-            # the values the variable takes.
-            value = unite_values(
-                *[
-                    (
-                        TypedValue(type(subval.val))
-                        if isinstance(subval, KnownValue)
-                        and isinstance(subval.val, (int, float, complex, str, bytes))
-                        and not isinstance(subval.val, bool)
-                        else subval
-                    )
-                    for subval in flatten_values(value)
-                ]
-            )
+        if isinstance(node.target, ast.Name):
+            value = self._widen_if_carried_around_loop(value)
 
         with (
             qcore.override(self, "being_assigned", value),
